@@ -604,6 +604,8 @@ def norm_loops(ctx, name, table):
 
         def bind1(ph, init):
             if ph.ty.is_fp:
+                if 'w' in roles:
+                    raise Unsupported('the first loop carries a second floating-point value (a NaN tracker?): outside the running-maximum template')
                 roles['w'] = ph.res
                 return dom.sym('W', real=True, nonnegative=True)
             if ph.ty.is_ptr:
